@@ -53,6 +53,15 @@ def main(argv):
     try:
         mod = importlib.import_module("sa.rules." + pid.lower())
         rep = mod.run(tier)
+        # the reference rules every property runs on the files it is anchored in (sa/common.py)
+        from sa import common
+        import json as _json
+        anchors = []
+        for _l in open(os.path.join(cdb.VERIF, "properties.jsonl")):
+            _d = _json.loads(_l)
+            if _d["id"] == pid:
+                anchors = _d["anchors"]["files"]
+        common.apply(rep, pid, anchors, tier)
         selfcheck_failed = False
         if tier == "thorough" and not repo and not os.environ.get("VERIF_NO_SELFTEST"):
             # checker self-validation: every recorded one-instance mutation must be detected on a scratch copy,
